@@ -6,6 +6,7 @@ Used for (1) replaying refuted obligations / finding a failing input when the so
 every generated input), (3) the run-time monitor.
 """
 import ast
+import os
 import collections
 import copy
 import importlib
@@ -410,6 +411,8 @@ class Evaluator:
                         same = (cur is av) or (not isinstance(av, (dict, list, set, collections.deque)) and cur == av) \
                             or (isinstance(av, (dict, list, set, collections.deque)) and type(cur) is type(av) and list(cur) == list(av))
                         if not same:
+                            if os.environ.get('VERIF_DEBUG_HEAP'):
+                                print('heap_unchanged: %s.%s %r -> %r' % (type(o).__name__, an, av, cur))
                             return False
                 return True
             if name == 'unchanged':
@@ -570,17 +573,18 @@ def check_call(contract, func, kwargs, spec_funcs, describe=None, exc_lattice=No
                 return 'skip'
     except SpecError:
         raise
-    snap = Snapshot()
-    for v in kwargs.values():
-        snap.visit(v)
-    for v in (extra_env or {}).values():
-        snap.visit(v)
     def safe_repr(v):
         try:
             return repr(v)[:300]
         except Exception:
             return '<%s under construction>' % type(v).__name__
+    # described BEFORE the snapshot: repr() of a DNSIncoming parses its records lazily (a write)
     desc = describe(kwargs) if describe else {k: safe_repr(v) for k, v in kwargs.items()}
+    snap = Snapshot()
+    for v in kwargs.values():
+        snap.visit(v)
+    for v in (extra_env or {}).values():
+        snap.visit(v)
     raised = None
     result = None
     try:
